@@ -16,6 +16,7 @@ import (
 	"os"
 	"runtime"
 	"sync"
+	"sync/atomic"
 	"syscall"
 	"unsafe"
 )
@@ -93,6 +94,9 @@ type task struct {
 	prio       int64
 	policy     Policy
 	ranges     uint64
+	gid        uint64 // goroutine id (to read its state off the runtime's dump)
+	blockedOn  uintptr
+	blockDir   int8
 	fn         func()
 }
 
@@ -484,11 +488,15 @@ func switchTo(step uint64, me, nx int, site int32, finish bool) {
 	cur = nx
 	rawWrite(tasks[nx].wfd)
 	rawRead(tasks[me].rfd)
-	// whoever woke us set cur = me
+	// whoever woke us set cur = me; if it is on its way into a real block,
+	// wait until it is parked there
+	settleIfNeeded()
 }
 
 func taskMain(i int) {
+	setGID(i)
 	park0(i)
+	settleIfNeeded()
 	// deferred, so that runtime.Goexit in a library goroutine still hands the
 	// baton on (a panic keeps propagating and ends the process, as it would
 	// for a user)
@@ -499,13 +507,33 @@ func taskMain(i int) {
 //go:norace
 func park0(i int) { rawRead(tasks[i].rfd) }
 
+//go:norace
+func setGID(i int) { tasks[i].gid = curGID() }
+
 // Go replaces a `go` statement of repository code: the new goroutine becomes
 // one more simulated task, so that the schedule also decides when library
 // goroutines run. Outside a simulation it is a plain go statement.
 func Go(fn func()) {
 	i := spawn(fn)
 	if i < 0 {
-		go fn()
+		// outside a simulation (reference phase, oracle process): a real
+		// goroutine. It must be gone, or parked for good, before the next
+		// simulation starts, because its yields would be taken for the running
+		// task's (see quiesceReal).
+		realLive.Add(1)
+		go func() {
+			gid := curGID()
+			realMu.Lock()
+			realGIDs[gid] = true
+			realMu.Unlock()
+			defer func() {
+				realMu.Lock()
+				delete(realGIDs, gid)
+				realMu.Unlock()
+				realLive.Add(-1)
+			}()
+			fn()
+		}()
 		return
 	}
 	wg.Add(1)
@@ -520,8 +548,42 @@ func Go4[A, B, C, D any](f func(A, B, C, D), a A, b B, c C, d D) {
 	Go(func() { f(a, b, c, d) })
 }
 
-// Spawned counts library goroutines turned into tasks.
-var Spawned uint64
+var (
+	realLive atomic.Int64
+	realMu   sync.Mutex
+	realGIDs = map[uint64]bool{}
+)
+
+// quiesceReal waits until no real library goroutine (started outside a
+// simulation) can run any more: each has exited or is parked in a channel
+// operation.
+func quiesceReal() {
+	for spin := 0; realLive.Load() > 0; spin++ {
+		buf := make([]byte, 1<<18)
+		n := runtime.Stack(buf, true)
+		dump := buf[:n]
+		busy := false
+		realMu.Lock()
+		for gid := range realGIDs {
+			if !parkedInChanOp(dump, gid) {
+				busy = true
+			}
+		}
+		realMu.Unlock()
+		if !busy {
+			return
+		}
+		if spin > 200000 {
+			os.Stdout.WriteString("SIM-REAL-GOROUTINES-STILL-RUNNING\n")
+			os.Exit(2)
+		}
+		runtime.Gosched()
+	}
+}
+
+// Spawned counts library goroutines turned into tasks, Leaked those that
+// were still blocked when their run ended.
+var Spawned, Leaked uint64
 
 //go:norace
 func spawn(fn func()) int {
@@ -579,6 +641,7 @@ func finish(i int) {
 //go:norace
 func Run(fns []func(), s Schedule, maxYields uint64) Result {
 	initPipes()
+	quiesceReal()
 	if len(fns) == 0 || len(fns) > MaxTasks {
 		panic("simrt.Run: bad task count")
 	}
@@ -644,6 +707,21 @@ func Run(fns []func(), s Schedule, maxYields uint64) Result {
 	cur = first
 	rawWrite(tasks[first].wfd)
 	rawRead(ctrl.rfd)
+	settle()
+	for i := 0; i < ntasks; i++ {
+		if tasks[i].state != 3 {
+			continue
+		}
+		if i < nstatic {
+			// a client's call never returns: everybody else is done
+			os.Stdout.WriteString("SIM-DEADLOCK\n")
+			os.Exit(68)
+		}
+		// a library goroutine left blocked for ever (leak): give up its slot
+		tasks[i].state = 4
+		Leaked++
+		wg.Done()
+	}
 	active = false
 	cur = -1
 	wg.Wait()
